@@ -23,6 +23,7 @@ import (
 type stepC12 struct {
 	Setter   string `json:"setter"`
 	Index    int    `json:"index"`
+	Probe    int    `json:"probe,omitempty"` // read-only operation run after the call (see api.Probe)
 	AfterGob string `json:"model_after_gob"`
 	After    string `json:"model_after"`
 }
@@ -220,6 +221,11 @@ func checkC12(c caseC12) (sig, msg string) {
 		if pan := guard.Call(func() { s.Apply(p, &m, st.Index) }); pan != nil {
 			return "panic:" + st.Setter, fmt.Sprintf("step %d %s panicked: %v\n%s", i, st.Setter, pan.Value, pan.Stack)
 		}
+		if st.Probe > 0 {
+			if pan := guard.Call(func() { api.Probe(p, st.Probe) }); pan != nil {
+				return "panic:probe", fmt.Sprintf("read-only operation %d after step %d %s panicked: %v", st.Probe, i, st.Setter, pan.Value)
+			}
+		}
 		var got model.Packet
 		if pan := guard.Call(func() { got = api.Observe(p) }); pan != nil {
 			return "panic:accessor", fmt.Sprintf("accessors panicked after step %d %s: %v", i, st.Setter, pan.Value)
@@ -312,7 +318,11 @@ func TestC12(t *testing.T) {
 					idx = listLenOf(&m, s.Name) - 1
 				}
 				after := packModel(m)
-				c.Steps = append(c.Steps, stepC12{Setter: s.Name, Index: idx, AfterGob: after, After: m.String()})
+				probe := 0
+				if rapid.IntRange(0, 5).Draw(t, "probe") == 0 {
+					probe = rapid.IntRange(1, 4).Draw(t, "probekind")
+				}
+				c.Steps = append(c.Steps, stepC12{Setter: s.Name, Index: idx, Probe: probe, AfterGob: after, After: m.String()})
 				calls[s.Name]++
 				if !s.IsList && calls[s.Name] >= 2 && before != after {
 					nt = true // set twice with different values (includes resets to zero)
